@@ -914,7 +914,9 @@ static void fz_w32(uint8_t *o, uint32_t v)
 	o[3] = v;
 }
 
-static const uint32_t FZ_LEN[] = {0, 1, 7, 8, 9, 12, 20, 24, 32, 3247, 3248, 3249, 65535, 65536, 0x7fffffffu, 0x80000000u, 0xffffffffu};
+static const uint32_t FZ_LEN[] = {0, 1, 7, 8, 9, 12, 20, 24, 32, 3247, 3248, 3249, 65535, 65536, 0x7fffffffu, 0x80000000u, 0xffffffffu,
+				  /* too big, with the low 16 bits of a valid length */ 0x00010008u, 0x00010014u, 0x00010018u, 0x00010020u, 0xffff0014u};
+#define N_FZ_LEN ((uint32_t)(sizeof(FZ_LEN) / sizeof(FZ_LEN[0])))
 static const uint8_t FZ_BYTE[] = {0, 1, 2, 31, 32, 33, 127, 128, 129, 254, 255};
 
 /* structure-aware stream: a valid response over the universe, then mutations */
@@ -936,7 +938,7 @@ static size_t fuzz_rawgen(struct sim *s, uint8_t *out, size_t cap, uint64_t fsee
 		if (rndp(&r, 1, 2) && n >= 8) {
 			out[0] = (uint8_t)av; /* make the header plausible so that parsing goes deeper */
 			out[1] = (uint8_t)rndn(&r, 12);
-			fz_w32(out + 4, FZ_LEN[rndn(&r, 17)]);
+			fz_w32(out + 4, FZ_LEN[rndn(&r, N_FZ_LEN)]);
 		}
 		return n;
 	}
@@ -973,7 +975,7 @@ static size_t fuzz_rawgen(struct sim *s, uint8_t *out, size_t cap, uint64_t fsee
 
 		switch (rndn(&r, 10)) {
 		case 0: /* length field */
-			fz_w32(p + 4, rndp(&r, 2, 3) ? FZ_LEN[rndn(&r, 17)] : (uint32_t)plen + rndn(&r, 9) - 4);
+			fz_w32(p + 4, rndp(&r, 2, 3) ? FZ_LEN[rndn(&r, N_FZ_LEN)] : (uint32_t)plen + rndn(&r, 9) - 4);
 			break;
 		case 1: /* type */
 			p[1] = rndp(&r, 1, 2) ? (uint8_t)rndn(&r, 13) : (uint8_t)rnd32(&r);
@@ -993,11 +995,11 @@ static size_t fuzz_rawgen(struct sim *s, uint8_t *out, size_t cap, uint64_t fsee
 			break;
 		case 5: /* nested lengths of an Error Report */
 			if (p[1] == 10 && plen >= 16) {
-				fz_w32(p + 8, rndp(&r, 1, 2) ? FZ_LEN[rndn(&r, 17)] : rndn(&r, 64));
+				fz_w32(p + 8, rndp(&r, 1, 2) ? FZ_LEN[rndn(&r, N_FZ_LEN)] : rndn(&r, 64));
 				if (rndp(&r, 1, 2))
-					fz_w32(p + plen - 8, FZ_LEN[rndn(&r, 17)]);
+					fz_w32(p + plen - 8, FZ_LEN[rndn(&r, N_FZ_LEN)]);
 			} else {
-				fz_w32(p + 4, FZ_LEN[rndn(&r, 17)]);
+				fz_w32(p + 4, FZ_LEN[rndn(&r, N_FZ_LEN)]);
 			}
 			break;
 		case 6: /* session id / reserved */
@@ -1020,7 +1022,7 @@ static size_t fuzz_rawgen(struct sim *s, uint8_t *out, size_t cap, uint64_t fsee
 			break;
 		default: /* 32-bit field at a 4-byte boundary */
 			if (plen >= 12)
-				fz_w32(p + 8 + 4 * rndn(&r, (uint32_t)(plen - 8) / 4), rndp(&r, 1, 2) ? FZ_LEN[rndn(&r, 17)] : rnd32(&r));
+				fz_w32(p + 8 + 4 * rndn(&r, (uint32_t)(plen - 8) / 4), rndp(&r, 1, 2) ? FZ_LEN[rndn(&r, N_FZ_LEN)] : rnd32(&r));
 			break;
 		}
 	}
@@ -1332,6 +1334,14 @@ int main(int argc, char **argv)
 
 	VO.max_samples = 2;
 	ALLOC_UNDO_ONLY = argkv_l(argc, argv, "undo_only", 0);
+	if (argkv_l(argc, argv, "balance", 0)) {
+		/* any scenario mode with the counting allocator installed and no failure injected: whatever the conversation
+		 * was (defective responses, Error Reports, transport faults, stops), every block the library took from the
+		 * configured allocator must be back when the tables have been freed, and freed through that allocator */
+		ALLOC_MODE = true;
+		SIM_ALLOC_PAUSE = &AM.paused;
+		ALLOC_FAIL_AT = 0;
+	}
 #ifdef SIM_TCP_WRAPS
 	USE_TCP = argkv_l(argc, argv, "tcp", 0);
 #endif
